@@ -252,6 +252,7 @@ CHECKS["C13"] = {
     "level_note": "Requests and events are interleaved at quiescent points only (an event delivered at the very instant of a request is not asserted); the fake network's connection registry feeds the demotion's stream reset.",
     "parts": [
         {"part": "modes", "pkg": ROOT, "test": "TestVerif_C13_Modes", "quick": 6000, "thorough": 20000},
+        {"part": "dual-modes", "pkg": "./dual/", "test": "TestVerif_C13_DualModes", "quick": 1200, "thorough": 10000},
         {"part": "modes-gofuzz", "pkg": ROOT, "fuzz": "FuzzVerif_C13_Modes", "fuzz_seconds": 45, "quick": 0, "thorough": 0, "test": "FuzzVerif_C13_Modes"},
     ],
 }
